@@ -15,7 +15,7 @@ From Utp Require Import Base.Prelude Wire.SeqNr Wire.SeqNr_Proofs Wire.Header Rt
   Conn.VSock_Lemmas Conn.VSock_LemmasStep Conn.VSock_LemmasReach Conn.VSock_LemmasTx
   Conn.VSock_LemmasIn Conn.VSock_LemmasFin Conn.VSock_LemmasTimers Conn.VSock_LemmasPipe Conn.C17_StepLemmas
   Conn.C05_StepLemmas Conn.C05_StepZw
-  Conn.C05_Pred Conn.C06_Pred Conn.C06_RecProofs Conn.C06_StepLemmas Conn.C06_Step.
+  Conn.C05_Pred Conn.C06_Pred Conn.C06_RecProofs Conn.C06_StepLemmas Conn.C06_Step Conn.C10_Pred Conn.C10_Proofs.
 
 Definition ign (r : recovery) : option Z :=
   match rv_phase r with IgnoringUntilRecoveryPoint x => Some x | _ => None end.
@@ -582,3 +582,35 @@ Proof.
 Qed.
 
 End Trace.
+
+(* ------------------------------------------------------------------ the clause is met by a reachable poll:
+   three duplicate ACKs (Recovering, recovery point 101), the retransmission timer expires (Ignoring 101), the
+   acknowledgement of 101 arrives, the next poll takes it with the timer running: the phase is over *)
+Definition rpx_ops : list vop :=
+  [VoWrite (repeat 0 (Z.to_nat 528)); VoPoll [];
+   VoDeliver nv_dup; VoDeliver nv_dup; VoDeliver nv_dup; VoDeliver nv_dup; VoPoll [];
+   VoSetNow 3000000000; VoPoll [];
+   VoDeliver (wmsg ST_STATE 1 101 0); VoPoll []].
+
+(* a Pending poll, transport writable, that starts in Ignoring rp, Established, with the timer running, and ends
+   outside the phase *)
+Definition rp_exit_seen (st : fstep) : bool :=
+  match fs_event st, fs_result st, f_recovery (fs_pre st), f_state (fs_pre st), f_state (fs_post st),
+        f_recovery (fs_post st) with
+  | FePoll _, FrPoll PollPending _ _ _, IgnoringUntilRecoveryPoint _, Established, Established, CountingDuplicates _ =>
+      negb (timer_expired (f_t_retransmit (fs_pre st)) (fs_now st)) && negb (f_transport_pending (fs_post st)) &&
+      tol_ok (fs_pre st)
+  | _, _, _, _, _, _ => false
+  end.
+
+Lemma rp_exit_nonvacuous :
+  exists w cfg ops,
+    vconfig_ok cfg = true /\ Forall op_msg_ok ops /\
+    existsb rp_exit_seen (wtrace w cfg ops) = true /\
+    c06_rp_exit_ok cfg (wtrace w cfg ops) = true.
+Proof.
+  exists 1000, nv_cfg, rpx_ops.
+  split; [vm_compute; reflexivity|]. split.
+  { unfold rpx_ops. repeat (apply Forall_cons; [try exact I|]); try apply Forall_nil; vm_compute; reflexivity. }
+  split; vm_compute; reflexivity.
+Qed.
